@@ -320,23 +320,23 @@ SCHEMA_HISTORY = (" Generated schemas: names over a tiny alphabet (ASCII letters
                   "prefixes, extensions, case variants and concatenation twins (a.x_n / a_x.n); one soft type in four is derived from another used type "
                   "(New, Copy, rename, add a field); one schema in four is built through a longer edit history (a throw-away type added and removed), "
                   "one in six has its types taken out and put back in order, the schema being really used (lookups, Check, Rels, URL parsing, "
-                  "full and partial unmarshaling) while the order is not the final one; struct-backed types declare their ID field anywhere, take it from an embedded struct, or give it a defined string type, may embed a struct with tagged fields (to be ignored) and carry an untagged field with an attribute's json name; now and then one type has 60-80 fields; times may be located in time.Local (pinned to +02:00) and include the ends of the year range written in a zone that moves their UTC year out of it; to-many values may hold an empty ID; incoherent schemas may have 15-26 types and dangling targets that nearly match a type name.")
+                  "full and partial unmarshaling) while the order is not the final one; struct-backed types declare their ID field anywhere, take it from an embedded struct, or give it a defined string type, may embed a struct with tagged fields (to be ignored) and carry an untagged field with an attribute's json name; now and then one type has 60-80 fields; times may be located in time.Local (pinned to +02:00) and include the ends of the year range written in a zone that moves their UTC year out of it; to-many values may hold an empty ID; IDs may be made of a, b, comma and blank; byte strings of 47-200 bytes now and then; incoherent schemas may have 15-26 types and dangling targets that nearly match a type name.")
 EXTRA_RULE = {
     "C01": SCHEMA_HISTORY + " One soft resource in five has a field (attribute or relationship) that replaced a placeholder in its type after the "
-           "values were set (reads as zero). Times include landmark instants (zero time in UTC and +05:30, Unix epoch, year 9999). One case in five marshals the resource as a collection member, marshals other collections, then reads the first payload; every pointer and slice of what came back is overwritten afterwards.",
+           "values were set (reads as zero). Times include landmark instants (zero time in UTC and +05:30, Unix epoch, year 9999). One case in five marshals the resource as a collection member, marshals other collections, then reads the first payload (the member in front may carry the same ID); every pointer and slice of what came back is overwritten afterwards.",
     "C02": SCHEMA_HISTORY + " Members may be soft resources on a trimmed type of the same name, or soft resources / soft collections whose type was edited "
            "after the values were set; one list in 25 has 30-70 members; meta strings that look like timestamps, numbers, booleans, base64; URL with any "
-           "subset of size/number/custom page parameters and a filter label or and/or tree; error statuses include real HTTP codes.",
+           "subset of size/number/custom page parameters and a filter label or and/or tree; error statuses include real HTTP codes; one member in ten has no ID yet; one document in 25 includes 30-70 resources; Document.Resources nil, empty or with an unrelated entry; one case in three marshals two meta-only documents before the payload is read, and the reader's buffer is overwritten after UnmarshalDocument.",
     "C03": SCHEMA_HISTORY + " 0-10 Include calls (one case in six: 11-48), a marshal may come between Include calls, Document.Resources nil / empty / "
-           "unrelated, prefixes containing %, lists of 30-70 members now and then.",
+           "unrelated, prefixes containing %, lists of 30-70 members now and then; one case in three marshals three meta-only documents before the output is examined (it must not have changed).",
     "C04": SCHEMA_HISTORY + " Documents as in C02 (trimmed soft members of the same type name, large lists, URL filters and page parameters); each document is marshaled three times with the same URL, the last time with a widened selection.",
     "C05": SCHEMA_HISTORY + " Mutated documents include lists of 30-70 members; mutations include editing a string in place (character dropped, "
-           "prefix, suffix, doubled, emptied); request targets are path-escaped.",
+           "prefix, suffix, doubled, emptied) and a links member in object form (href, meta of any JSON kind); request targets are path-escaped.",
     "C06": SCHEMA_HISTORY + " One payload case in four is preceded by another request for the same type (accepted, or refused because its id is a number); "
            "one in four runs as the second member of a collection (UnmarshalCollection) whose first member is of any type; a bytes attribute must "
            "re-marshal as a JSON string; every accepted value and resource is overwritten in place afterwards (pointers, slices); payloads with an unknown or missing type, ill meta/links members, empty or missing IDs in to-many lists.",
     "C07": SCHEMA_HISTORY + " Sort rules with several leading dashes and other decorations (up to 12 rules), fields lists naming fields of other types, "
-           "filter labels in any JSON escape style; two names differing by one leading character are sorted on longer first.",
+           "filter labels in any JSON escape style; two names differing by one leading character are sorted on longer first; a name from the far end of the sorted field list given twice.",
     "C08": SCHEMA_HISTORY + " Empty filter= / sort= / include= / fields[t]= among the accepted parameters; filter labels in any JSON escape style incl. "
            "whitespace + '{'; collations on combining filter nodes, whose members come in any order; filter trees compared member by member. The recorded finding fields-param-truncated is "
            "excused only when the text is read exactly like the same text without the truncated parameter. One case in twenty first prints a URL on which the pinned String panics (recovered).",
@@ -344,7 +344,7 @@ EXTRA_RULE = {
            "Range call; every page returned during a case is read again at the end, after two unrelated Range calls on the same collection; collections of up to 70 members, an empty ID, instants far apart, byte strings of different lengths.",
     "C10": " One built filter is evaluated, some of its leaf values are replaced (in place for lists of equal length) and it is evaluated again; leaf "
            "filters whose value is the one read from the resource itself (same pointer / slice); filters that use one sub-filter object at several "
-           "places; unknown operators that look like known ones (==, !==, <==, =<, <>, '', IN, Has); wide (60-140 groups) and deep (60-140 levels) trees around a generated one; a soft resource nobody has read yet.",
+           "places; unknown operators that look like known ones (==, !==, <==, =<, <>, '', IN, Has); ordering operators on to-one relationships (lexicographic), zero-prefixed and neighbouring IDs; to-many sets that read alike when joined with commas; wide (60-140 groups) and deep (60-140 levels) trees around a generated one; a soft resource nobody has read yet.",
     "C11": SCHEMA_HISTORY + " Documents as in C02; included IDs chosen so that type+ID (either order) coincide with an earlier included resource when the "
            "type names allow it; after the repeated marshals the lists of the same document and URL objects are permuted in place and marshaled again; "
            "the observable state includes page parameters, filter label and filter tree as they read; one document in four may include different types under one ID (up to 12 included, equal-ID members keep the caller's order in the twin).",
@@ -360,7 +360,7 @@ EXTRA_RULE = {
            "Schemas are built a third way: types first, then one relationship or pair at a time through AddRel / AddTwoWayRel in any order, with or "
            "without a Rels() query between edits. Concatenation twins in generated schemas; one schema in five is dense (3-6 types, up to 45 edges: lists of more than a dozen entries).",
     "C17": " Actions also include Equal/EqualStrict calls between Set and Get, Set(bytes, []byte(nil)), attributes whose names differ only by letter "
-           "case; equality pairs include to-many lists that print alike, null against a pointer to the zero value, one empty ID; struct types with a defined string type as ID, embedded structs with tagged fields, shadow fields, now and then 62-72 attributes (then compared in full after one step in eight and at the end).",
+           "case; equality pairs include to-many lists that print alike, null against a pointer to the zero value, one empty ID, the same attribute name with another kind and a look-alike value; struct types with a defined string type as ID, embedded structs with tagged fields, shadow fields, now and then 62-72 attributes (then compared in full after one step in eight and at the end).",
     "C18": " Slices with spare capacity at copy time and append-through-Get operations on both sides; Type.Copy of soft and struct-backed types, "
            "possibly used (New) before the copy, with New on either side afterwards; Fields() and the content of the type compared; types as in C17.",
     "C19": " Kinds include nullable bytes/time/bool; IDs include the empty ID; SetType may retarget a kept relationship; members are read after two "
